@@ -560,6 +560,25 @@ func runC02(r *mc.Report, e *Env) {
 			}
 		}
 		r.Exec(fmt.Sprintf("batch|%s|%d stored", g.Name, len(x.st.puts)))
+		// the same key twice: the genuine item first, then other content under that key - in one
+		// call, and in a second call once the genuine item is in the store
+		for variant := 0; variant < 2; variant++ {
+			x.st.reset()
+			panicsTo(func() {
+				if variant == 0 {
+					x.net.VerifValidateContents([][]byte{g.Key, g.Key}, [][]byte{g.Content, o.Content})
+				} else {
+					x.net.VerifValidateContents([][]byte{g.Key}, [][]byte{g.Content})
+					x.net.VerifValidateContents([][]byte{g.Key}, [][]byte{o.Content})
+				}
+			})
+			for _, p := range x.st.puts {
+				if !ok[string(p.key)+"|"+string(p.content)] {
+					r.Violation("stored-only-if-validated", "history.(*Network).validateContents:key-already-stored", fmt.Sprintf("%s: with the genuine item already stored under the key, other content offered under the same key (%s) was stored without being valid", g.Name, []string{"same call", "a later call"}[variant]), c02Case{Seed: g.Name, Kind: "batch-item", Key: hex.EncodeToString(p.key), Content: hex.EncodeToString(p.content), Oracle: "honest"})
+				}
+			}
+			r.Exec(fmt.Sprintf("dupkey|%s|%d|%d stored", g.Name, variant, len(x.st.puts)))
+		}
 	}
 	if e.Shard == 0 && !x.stop {
 		x.getters()
